@@ -184,6 +184,10 @@ impl GrammarBuilder {
         }
     }
 
+    pub fn limits(&self) -> &ParserLimits {
+        &self.limits
+    }
+
     pub fn check_limits(&self) -> Result<()> {
         ensure!(
             self.regex.spec.cost() <= self.limits.initial_lexer_fuel,
